@@ -9,11 +9,11 @@ Open Scope Z_scope.
 (* stored and direct have the same length at every point of every event sequence the model accepts: after
    doc actions at any level, failed doc actions, creation actions, calc changes, per-column and final flushes,
    prunes, and rollback trimming. *)
-Theorem C31_direct_parallel : forall td d es1 es2 s,
-  run td (init_st d) (es1 ++ es2) = Ok s ->
-  exists s1, run td (init_st d) es1 = Ok s1 /\
+Theorem C31_direct_parallel : forall td rep d es1 es2 s,
+  run td rep (init_st d) (es1 ++ es2) = Ok s ->
+  exists s1, run td rep (init_st d) es1 = Ok s1 /\
              length (s_stored s1) = length (s_direct s1) /\ length (s_stored s) = length (s_direct s).
-Proof. exact direct_parallel. Qed.
+Proof. intros td rep. exact (direct_parallel rep td). Qed.
 
 (* ... and for every interleaving at all of the four ways the engine touches the two lists (this covers
    bundles that fail half-way, whose doc actions the document model may not accept). *)
@@ -22,8 +22,8 @@ Theorem C31_direct_parallel_log : forall es,
 Proof. intro es. apply lrun_parallel. reflexivity. Qed.
 
 (* every step of the full model is one of those four list operations, or leaves both lists alone *)
-Theorem C31_steps_are_log_steps : forall td e s s',
-  step td e s = Ok s' ->
+Theorem C31_steps_are_log_steps : forall td rep e s s',
+  step td rep e s = Ok s' ->
   (s_stored s', s_direct s') = (s_stored s, s_direct s) \/
   exists le, lstep le (s_stored s, s_direct s) = (s_stored s', s_direct s') /\
     match e with
@@ -33,24 +33,24 @@ Theorem C31_steps_are_log_steps : forall td e s s',
     | ERollback n => le = LTrim n
     | _ => False
     end.
-Proof. exact step_log. Qed.
+Proof. intros td rep. exact (step_log rep td). Qed.
 
 (* every action appended by a flush (per column or final) is non-direct, and a flush appends only *)
-Theorem C31_calc_flush_nondirect : forall td e s s',
-  (e = EFlushAll \/ exists t c, e = EFlushCol t c) -> step td e s = Ok s' ->
+Theorem C31_calc_flush_nondirect : forall td rep e s s',
+  (e = EFlushAll \/ exists t c, e = EFlushCol t c) -> step td rep e s = Ok s' ->
   exists acts, s_stored s' = s_stored s ++ acts /\ s_direct s' = s_direct s ++ repeat false (length acts).
-Proof. exact calc_flush_nondirect. Qed.
+Proof. intros td rep. exact (calc_flush_nondirect rep td). Qed.
 
 (* a doc action recorded at indirection level > 0 is non-direct; at level 0 it is direct *)
-Theorem C31_indirect_context_nondirect : forall td a lvl pre s s',
-  0 < lvl -> step td (EDoc a lvl pre) s = Ok s' ->
+Theorem C31_indirect_context_nondirect : forall td rep a lvl pre s s',
+  0 < lvl -> step td rep (EDoc a lvl pre) s = Ok s' ->
   s_stored s' = s_stored s ++ [a] /\ s_direct s' = s_direct s ++ [false].
-Proof. exact indirect_context_nondirect. Qed.
+Proof. intros td rep. exact (indirect_context_nondirect rep td). Qed.
 
-Theorem C31_doc_event_flag : forall td a lvl pre s s',
-  step td (EDoc a lvl pre) s = Ok s' ->
+Theorem C31_doc_event_flag : forall td rep a lvl pre s s',
+  step td rep (EDoc a lvl pre) s = Ok s' ->
   s_stored s' = s_stored s ++ [a] /\ s_direct s' = s_direct s ++ [lvl =? 0].
-Proof. exact doc_event_flag. Qed.
+Proof. intros td rep. exact (doc_event_flag rep td). Qed.
 
 (* Actions of a class that is only ever issued inside an indirect context (in the code: everything that maintains
    summary-table rows) are never direct -- neither the ones recorded as doc actions nor the ones flushes append,
@@ -58,13 +58,13 @@ Proof. exact doc_event_flag. Qed.
    harness/props/c31.py checks it on the implementation. *)
 Definition on_tables (is_summary : str -> bool) (a : action) : bool := is_summary (action_table a).
 
-Theorem C31_class_nondirect_partial : forall td P d es s,
-  Forall (event_ok P) es -> run td (init_st d) es = Ok s ->
+Theorem C31_class_nondirect_partial : forall td rep P d es s,
+  Forall (event_ok P) es -> run td rep (init_st d) es = Ok s ->
   forall a dir, In (a, dir) (combine (s_stored s) (s_direct s)) -> P a = true -> dir = false.
 Proof.
-  intros td P d es s Hok Hrun a dir Hin HP.
+  intros td rep P d es s Hok Hrun a dir Hin HP.
   assert (H : flags_ok P (s_stored s, s_direct s)).
-  { apply (class_nondirect td P es (init_st d) s); try assumption; [reflexivity|constructor]. }
+  { apply (class_nondirect rep td P es (init_st d) s); try assumption; [reflexivity|constructor]. }
   unfold flags_ok in H. rewrite Forall_forall in H. exact (H (a, dir) Hin HP).
 Qed.
 
@@ -80,7 +80,7 @@ Example C31_regression_summary_ref_cleanup :
   let es := [EDoc (RemoveRecord tT 1) 0 []; EDoc (BulkUpdateRecord tT [2; 3] [(cP, [0; 0])]) 0 [];
              EDoc (UpdateRecord tS 2 [(cP, 0)]) 1 []; EDoc (RemoveRecord tS 2) 1 []] in
   Forall (event_ok (on_tables (fun t => str_eqb t tS))) es /\
-  match run (fun _ => 0) (init_st d) es with
+  match run (fun _ => 0) false (init_st d) es with
   | Ok s => s_direct s = [true; true; false; false]
   | Err _ => False
   end.
@@ -95,13 +95,13 @@ Qed.
 Example C31_nonvacuous :
   let tT := [84] in let cA := [65] in let ty := [65; 110; 121] in
   let d := [(tT, mkTable [3] [(cA, mkCol ty [(3, 10)])])] in
-  match run (fun _ => 0) (init_st d)
+  match run (fun _ => 0) false (init_st d)
             [EDoc (UpdateRecord tT 3 [(cA, 11)]) 0 []; EDoc (AddRecord tT 4 [(cA, 1)]) 1 [];
              ECalc tT cA [(4, (1, 2))]; EFlushAll; ERollback 1] with
   | Ok s => s_stored s = [UpdateRecord tT 3 [(cA, 11)]] /\ s_direct s = [true]
   | Err _ => False
   end /\
-  match run (fun _ => 0) (init_st d)
+  match run (fun _ => 0) false (init_st d)
             [EDoc (UpdateRecord tT 3 [(cA, 11)]) 0 []; EDoc (AddRecord tT 4 [(cA, 1)]) 1 [];
              ECalc tT cA [(4, (1, 2))]; EFlushAll] with
   | Ok s => s_direct s = [true; false; false]
